@@ -72,13 +72,13 @@ CHECKS["C12"] = (
 
 CHECKS["C02"] = (
     "For 0..2 (quick) / 0..3 (thorough) rows with symbolic match bits and symbolic sort keys (nullable string <=1 byte, full-width int64, float64 bit patterns "
-    "except NaN, bool), an enumerated list of sort specifications (id asc/desc, one key type per direction, two-field, five-field incl. the SortMax boundary, "
+    "except NaN, bool, datetime), an enumerated list of sort specifications (id asc/desc, one key type per direction, two-field, five-field incl. the SortMax boundary, "
     "parsed by the real parser) and symbolic paging (skip absent or any int64; limit absent, none, or any int64), the solver shows that the real "
     "QueryIdsC -> uniqueIndexScanner / sortingScanner (row comparators, llrb from source, setPaging) returns count = number of matching rows, page length = "
     "min(limit, matches - max(skip,0)) and the rows of rank skip, skip+1, ... under the reference order (nulls first ascending, id tie-break); cursor-style "
     "iteration (IterateIds) returns the same page for unsorted queries.",
     BASE_NOTE + "Rows are stored through the real Create into the mbolt model. The five-field specification with arbitrary keys runs over two rows (quick: two of the four "
-    "nullable keys symbolic, paging symbolic; thorough: all four symbolic, no paging). Outside: more rows, longer strings, datetime keys, NaN sort keys.",
+    "nullable keys symbolic, paging symbolic; thorough: all four symbolic, no paging). Datetime keys are arbitrary instants (year 1..9999, nanoseconds). Outside: more rows, longer strings, NaN sort keys.",
     "6/C02")
 CHECKS["C04"] = (
     "One inductive step per fk wiring (nullable / non-null fk index, cascade-delete fk index, fk constraint restrict / cascade): arbitrary valid population of "
@@ -89,7 +89,8 @@ CHECKS["C04"] = (
     "from the id goes through the recorded parse of the template and the real listener, typer, ParseZqlString and evaluator.",
     BASE_NOTE + "Also: a cascading delete inside a transaction that already wrote to the referrers' store (4 adjacent referrers; bbolt then iterates live nodes) and, "
     "for the nullable cascading fk constraint on a self-referencing store, every assignment of 3 emps to nil / themselves / each other (reference cycles included): "
-    "exactly the transitive referrers go. Self-references under restrict are not exercised (meaning not fixed by the statement). "
+    "exactly the transitive referrers go. A dept referenced with cascading deletes from two stores, deleted, re-created with new referrers and deleted again inside "
+    "one transaction: each delete removes exactly the referrers of both stores. Self-references under restrict are not exercised (meaning not fixed by the statement). "
     "For a data-dependent filter the ANTLR front end is modelled by the recorded token stream of the template plus the grammar's STRING-body condition; "
     "native replay uses the real parser. Outside: non-ASCII ids, control characters other than the four escapable ones.",
     "6/C04")
@@ -106,7 +107,9 @@ CHECKS["C16"] = (
     "each through the ordinary context or the system context derived from it, each passing any value of IsSystem and Migrate, updates with or without a field checker): the transaction is accepted iff no "
     "operation touches a system entity from the ordinary context; refused transactions change nothing; the stored flag always equals the one at creation. Second harness: system / ordinary entities reference an ordinary "
     "dept with a cascading delete (fk constraint or fk index); deleting the dept is refused from an ordinary context exactly when a system entity is among the "
-    "referrers, and then nothing changes.",
+    "referrers, and then nothing changes. Third harness: a child store layered on the system-entity store; an entity with child data (system or not) is updated "
+    "(with or without a field checker) or deleted through either store from either context: allowed iff not a system entity or the context is a system context; "
+    "a refused change leaves the database as it was.",
     BASE_NOTE + "time.Now is a fixed instant.",
     "6/C16")
 CHECKS["C19"] = (
@@ -140,7 +143,8 @@ CHECKS["C07"] = (
     "(bbolt's key limit) arriving by create or update after an earlier successful create in the same transaction; (ii) from a fixed population, each of 13 store "
     "operations (create / update / delete through parent and child store, patch, AddLinks / SetLinks / RemoveLinks, Increment / Decrement / SetLinkCount) with the "
     "k-th Bucket.Put of the transaction failing, k symbolic in 1..14 (quick) / 1..30 (thorough): if the fault was delivered the operation and the transaction "
-    "return an error, the database is as before and no event fires.",
+    "return an error, the database is as before and no event fires. The first pre-commit action is registered inside the body or on the context before the "
+    "transaction (Db.Batch re-runs a failing body on its own, modelled as such); the operations run directly or inside a nested Db.Update / Db.Batch on the same context.",
     BASE_NOTE + "'Database left exactly as before' rests on bbolt's rollback, which the mbolt model has by construction (assumed of bbolt); what is checked "
     "is that the error which triggers it always reaches the caller. Storage faults are injected at Bucket.Put only: natively through the failpoint bbolt's "
     "authors placed there (gofail marker beforeBucketPut, enabled by a build overlay of bbolt's bucket.go), in the model at the same position; failing Delete / "
@@ -153,7 +157,8 @@ CHECKS["C08"] = (
     "for delete, child changes once more on the parent store flagged as parent event, none for plain parent entities on the child store, nothing for failed "
     "transactions, commit actions and tx-complete listeners once. Plus: one MutateContext carrying two transactions in a row (each failing or committing, symbolic): "
     "the delivered events are exactly those of the committed ones; and a parent with two child stores where the entity lives in either: create / update / delete "
-    "through any store of the family is heard once on its child store, once on the parent, never on the sibling.",
+    "through any store of the family is heard once on its child store, once on the parent, never on the sibling; and the operations run inside a nested "
+    "Db.Update on the transaction's context (still one transaction: events, commit actions and tx-complete listeners once).",
     BASE_NOTE + "Commit actions run in a goroutine in the real code; the executor runs it inline (one schedule), the native replay waits for it. *Async event types are not exercised.",
     "6/C08")
 CHECKS["C09"] = (
@@ -186,7 +191,8 @@ CHECKS["C01"] = (
     "null or symbolic (strings <=2/3 bytes, full-width int64, all float64 bit patterns, datetimes arbitrary instants of year 1..9999 with nanoseconds, datetime literals also written with a zone offset): real typer + evaluator == spec. "
     "(2)+(3) Through the store on symbolic populations of 2 (quick) / 3 (thorough) entities: anyOf / allOf / count / isEmpty over a direct string set (elements "
     "arbitrary bytes; the index-seek shortcut is compared with the scan semantics), scalars, fk-dotted symbols, the back-reference set, three-level set paths, "
-    "sub-queries, map elements holding a string / int64 / bool / nothing: QueryIds returns exactly the satisfying ids, once each, with the right count.",
+    "sub-queries, map elements holding a string / int64 / bool / nothing, float64 / bool / datetime (arbitrary instants) / int32-stored fields incl. dotted access: "
+    "QueryIds returns exactly the satisfying ids, once each, with the right count.",
     BASE_NOTE + "Programs are enumerated (parsed by the real parser natively, replayed into the real listener). Known finding KF-C01-null-bool-reads-false. "
     "Outside: decimal rendering of a symbolic integer beyond [-10,10] and of a symbolic float (paths cut and listed in the evidence), Unicode case folding, int sets.",
     "6/C01")
@@ -200,13 +206,17 @@ CHECKS["C10"] = (
     "interpreter is not encodable; see DESIGN.md section 7 - e.g. the lexer's silent dropping of unknown characters is outside this technique's reach).",
     "6/C10")
 CHECKS["C17"] = (
-    "Marker / timeline slice only. From an arbitrary metadata state (reset marker absent / true / false, stored timeline id absent or a symbolic string) a "
+    "(1) Snapshot / restore round trip through the real Snapshot and RestoreFromReader: state A (1-2 indexed entities, symbolic name), snapshot, one further "
+    "committed transaction of any of five kinds (nothing, create, delete, update, delete all), restore of the snapshot file: the logical content outside the "
+    "metadata bucket equals state A, the stores serve state A again, the database reports the snapshot id Snapshot returned, the restore listener fired once, "
+    "the next timeline-id request returns a fresh id exactly once. (2) Marker / timeline slice: from an arbitrary metadata state (reset marker absent / true / false, stored timeline id absent or a symbolic string) a "
     "GetTimelineId request in any of the three modes with a succeeding or failing id source: a fresh id is produced exactly when due, stored, the marker cleared; "
     "otherwise the stored id is returned without consulting the source; a failing source changes nothing; the following request returns the same id (fresh exactly "
     "once). Snapshot (real code incl. SnapshotInTx and MarkAsSnapshot over the modelled CopyFile/Open) marks the copy, not the live database; the copy reports the "
     "returned snapshot id, carries the snapshot-time content and yields a fresh timeline id exactly once.",
-    BASE_NOTE + "NOT claimed (DESIGN.md section 7): byte-level equality of the copied file, close / rename / reopen in RestoreFromReader, restore listeners, "
-    "and atomicity with respect to concurrent transactions - file I/O and scheduling are not encodable.",
+    BASE_NOTE + "Database files are entries of the bbolt model's registry (path -> database image): os.Create / os.Open / io.Copy / os.Rename / File.Close act on it, "
+    "tx.CopyFile forks an image; the native replay uses real files. NOT claimed (DESIGN.md section 7): byte-level equality of the copied file, I/O errors during "
+    "the restore, and atomicity with respect to concurrent transactions - scheduling is not encodable.",
     "6/C17")
 CHECKS["C20"] = (
     "68 typed queries covering every AST node kind that can reference a symbol (comparisons of each type incl. int-to-float conversion nodes, in / between / "
@@ -215,7 +225,8 @@ CHECKS["C20"] = (
     "ValidateSymbolsArePublic accepts iff all referenced symbols are public (map elements iff their map), and a rejection is an UnknownSymbolError naming a "
     "referenced non-public symbol. Elements of nested maps (tags.a.b.c) included. Validations do not influence each other: after a rejection an unrelated "
     "acceptable query passes and the same query passes once its symbols are published.",
-    BASE_NOTE + "Node kinds are covered through the query family, not generated from go/types.",
+    BASE_NOTE + "Node kinds are covered through the query family; the evidence lists, from go/types, which AST node types' Accept the family executed "
+    "(ast_node_kinds_visited) and which not (outside_claim; currently only node types that never occur in a typed query).",
     "6/C20")
 
 NOT_APPLICABLE = {
